@@ -43,6 +43,8 @@ EncTotal == pc # "encfail"
 \* ---- C04 clauses that hold on every well-formed graph
 WalkInv == IsWalk(live, N, start, e.strand) /\ e.v = EndOf(N, start, e.strand)
 StepBound == e.ticks <= Len(msg) * Cardinality(Closure(live, N, {start})) + 1
+\* need_path: one record per emitted nucleotide; the information flags mark exactly the steps that carried a digit
+PathShape == Len(e.path) = Len(e.strand) /\ \A i \in 1..Len(e.path) : e.path[i][2] = (IF DegreesAlong(live, N, start, e.strand)[i] >= 2 THEN 1 ELSE 0)
 \* ---- C05: the operational encoder produces the documented walk
 M == BitsVal(msg)
 DocHolds == pc \in {"dec", "done"} =>
@@ -56,6 +58,6 @@ Key == FoldLeft(LAMBDA a, u : 5 * a + Cardinality(live[u - 1]), 0, [i \in 1..N |
 Slot == IF EmitMod = 1 THEN 0 ELSE atoi(IOEnv.VERIF_SLOT) % EmitMod
 Emit == (EmitOn /\ pc = "done" /\ Key % EmitMod = Slot) =>
           PrintT(ToJson([live |-> [i \in 1..N |-> SetToSortSeq(live[i - 1], <)], tbl |-> [i \in 1..N |-> tbl[i - 1]], start |-> start,
-                         msg |-> msg, mode |-> mode, vtlen |-> vtlen, strand |-> e.strand, vt |-> Chk, ticks |-> e.ticks,
+                         msg |-> msg, mode |-> mode, vtlen |-> vtlen, strand |-> e.strand, vt |-> Chk, ticks |-> e.ticks, path |-> e.path,
                          bound |-> Len(msg) * Cardinality(Closure(live, N, {start}))]))
 =============================================================================
